@@ -89,9 +89,10 @@ PROPS = {
         'assumptions': ['max < 2^64-1 (the Go loop counter does not wrap)'],
     },
     'C01': {
-        'lean_targets': ['Cqos.Props.C01'],
+        'lean_targets': ['Cqos.Props.C01', 'Cqos.Facts.GluePrioV2', 'Cqos.Facts.GluePrioV1'],
+        'facts': True,
         'theorems': ['Cqos.C01.step_inv', 'Cqos.C01.run_inv', 'Cqos.C01.c01_capacity', 'Cqos.C01.c01_v2',
-                     'Cqos.C01.c01_v1', 'Cqos.C01.c01_simple', 'Cqos.C01.drive_is_run'],
+                     'Cqos.C01.c01_v1', 'Cqos.C01.c01_simple', 'Cqos.C01.drive_is_run', 'Cqos.Facts.gluePrioV2', 'Cqos.Facts.gluePrioV1'],
         'runs': [{'cmd': 'stepper', 'args': ['-family', 'mixed']},
                  {'cmd': 'stepper', 'args': ['-family', 'faulty']},
                  {'cmd': 'stepper', 'args': ['-family', 'dynamic']},
@@ -117,9 +118,10 @@ PROPS = {
         'assumptions': ['handlers release only what they hold (API contract)'],
     },
     'C03': {
-        'lean_targets': ['Cqos.Props.C03'],
+        'lean_targets': ['Cqos.Props.C03', 'Cqos.Facts.GlueJoin'],
+        'facts': True,
         'theorems': ['Cqos.C03.jstep_inv', 'Cqos.C03.jrun_inv', 'Cqos.C03.c03_concat', 'Cqos.C03.c03_prefix',
-                     'Cqos.C03.c03_nonempty', 'Cqos.C03.c03_join_le', 'Cqos.C03.c03_unite_big'],
+                     'Cqos.C03.c03_nonempty', 'Cqos.C03.c03_join_le', 'Cqos.C03.c03_unite_big', 'Cqos.Facts.glueJoin'],
         'runs': [{'cmd': 'jstepper', 'args': ['-family', 'mixed']},
                  {'cmd': 'blackbox', 'args': ['-scenario', 'join']}],
         'monitor_prefix': ['C03'],
@@ -140,10 +142,10 @@ PROPS = {
         'assumptions': [],
     },
     'C08': {
-        'lean_targets': ['Cqos.Props.C08', 'Cqos.Facts.C08'],
+        'lean_targets': ['Cqos.Props.C08', 'Cqos.Facts.C08', 'Cqos.Facts.GlueJoin'],
         'facts': True,
         'theorems': ['Cqos.C08.e_step', 'Cqos.C08.e_run', 'Cqos.C08.c08_copy', 'Cqos.C08.c08_nocopy',
-                     'Cqos.C08.c08_await_only_release', 'Cqos.C08.c08_v1_frozen', 'Cqos.C08.c08_cap', 'Cqos.Facts.c08_release_unbuffered'],
+                     'Cqos.C08.c08_await_only_release', 'Cqos.C08.c08_v1_frozen', 'Cqos.C08.c08_cap', 'Cqos.Facts.c08_release_unbuffered', 'Cqos.Facts.glueJoin'],
         'runs': [{'cmd': 'jstepper', 'args': ['-family', 'mixed']},
                  {'cmd': 'blackbox', 'args': ['-scenario', 'join']}],
         'monitor_prefix': ['C08'],
@@ -161,10 +163,11 @@ PROPS = {
         'assumptions': ['Go append within capacity writes in place; slices.Clone returns fresh memory'],
     },
     'C09': {
-        'lean_targets': ['Cqos.Props.C09'],
+        'lean_targets': ['Cqos.Props.C09', 'Cqos.Facts.GlueJoin'],
+        'facts': True,
         'theorems': ['Cqos.C09.join_step_emits', 'Cqos.C09.flags_mono', 'Cqos.C09.exact_step', 'Cqos.C09.c09_join_exact',
                      'Cqos.C09.c09_untimed_no_tick', 'Cqos.C09.c09_unite_maximal', 'Cqos.C09.c09_tick_needs_timeout',
-                     'Cqos.C09.c09_passAt_at_emission', 'Cqos.C09.c09_passAt_at_release'],
+                     'Cqos.C09.c09_passAt_at_emission', 'Cqos.C09.c09_passAt_at_release', 'Cqos.Facts.glueJoin'],
         'runs': [{'cmd': 'jstepper', 'args': ['-family', 'untimed']}, {'cmd': 'jstepper', 'args': ['-family', 'mixed']},
                  {'cmd': 'blackbox', 'args': ['-scenario', 'join']}],
         'monitor_prefix': ['C09'],
@@ -181,11 +184,11 @@ PROPS = {
         'assumptions': ['monotone clock (time.Now / time.Since)'],
     },
     'C10': {
-        'lean_targets': ['Cqos.Props.C10', 'Cqos.Facts.C10'],
+        'lean_targets': ['Cqos.Props.C10', 'Cqos.Facts.C10', 'Cqos.Facts.GlueJoin'],
         'facts': True,
         'theorems': ['Cqos.C10.c10_interval_v2', 'Cqos.C10.c10_interval_v2_nonpositive', 'Cqos.C10.c10_interval_v2_errors',
                      'Cqos.C10.c10_interval_v1', 'Cqos.C10.f_step', 'Cqos.C10.f_run', 'Cqos.C10.c10_passAt_le_oldest',
-                     'Cqos.C10.c10_flush', 'Cqos.Facts.c10_one_ticker'],
+                     'Cqos.C10.c10_flush', 'Cqos.Facts.c10_one_ticker', 'Cqos.Facts.glueJoin'],
         'runs': [{'cmd': 'pure', 'args': ['-family', 'c10']}, {'cmd': 'jstepper', 'args': ['-family', 'mixed']},
                  {'cmd': 'blackbox', 'args': ['-scenario', 'join']}],
         'monitor_prefix': ['C10'],
@@ -202,8 +205,9 @@ PROPS = {
         'assumptions': ['ticker fires every interruptInterval; scheduling latency bounded; monotone clock'],
     },
     'C11': {
-        'lean_targets': ['Cqos.Props.C11'],
-        'theorems': ['Cqos.C11.g_step', 'Cqos.C11.g_run', 'Cqos.C11.c11_whole', 'Cqos.C11.c11_always', 'Cqos.C11.c11_oversize'],
+        'lean_targets': ['Cqos.Props.C11', 'Cqos.Facts.GlueJoin'],
+        'facts': True,
+        'theorems': ['Cqos.C11.g_step', 'Cqos.C11.g_run', 'Cqos.C11.c11_whole', 'Cqos.C11.c11_always', 'Cqos.C11.c11_oversize', 'Cqos.Facts.glueJoin'],
         'runs': [{'cmd': 'jstepper', 'args': ['-family', 'mixed']}, {'cmd': 'blackbox', 'args': ['-scenario', 'join']}],
         'monitor_prefix': ['C11'],
         'level': 'proof',
@@ -217,10 +221,11 @@ PROPS = {
         'assumptions': [],
     },
     'C04': {
-        'lean_targets': ['Cqos.Props.C04'],
+        'lean_targets': ['Cqos.Props.C04', 'Cqos.Facts.GlueLimit'],
+        'facts': True,
         'theorems': ['Cqos.C04.tstep_inv', 'Cqos.C04.trun_inv', 'Cqos.C04.c04_item_time', 'Cqos.C04.c04_cumulative',
                      'Cqos.C04.c04_batches', 'Cqos.C04.wstep_inv', 'Cqos.C04.c04_window', 'Cqos.C04.c04_window_count',
-                     'Cqos.C04.c04_sent_sorted'],
+                     'Cqos.C04.c04_sent_sorted', 'Cqos.Facts.glueLimit'],
         'runs': [{'cmd': 'lstepper', 'args': ['-family', 'mixed']},
                  {'cmd': 'blackbox', 'args': ['-scenario', 'limit']}],
         'monitor_prefix': ['C04'],
@@ -239,9 +244,10 @@ PROPS = {
         'assumptions': ['ClockOK: monotone clock, Sleep(d) lasts at least d'],
     },
     'C12': {
-        'lean_targets': ['Cqos.Props.C12'],
+        'lean_targets': ['Cqos.Props.C12', 'Cqos.Facts.GlueLimit'],
+        'facts': True,
         'theorems': ['Cqos.C12.lstep_inv', 'Cqos.C12.lrun_inv', 'Cqos.C12.c12_passthrough', 'Cqos.C12.c12_close',
-                     'Cqos.C12.c12_no_pause_small', 'Cqos.C12.c12_sleep_count'],
+                     'Cqos.C12.c12_no_pause_small', 'Cqos.C12.c12_sleep_count', 'Cqos.Facts.glueLimit'],
         'runs': [{'cmd': 'lstepper', 'args': ['-family', 'mixed']},
                  {'cmd': 'blackbox', 'args': ['-scenario', 'limit']}],
         'monitor_prefix': ['C12'],
@@ -257,9 +263,10 @@ PROPS = {
         'assumptions': [],
     },
     'C02': {
-        'lean_targets': ['Cqos.Props.C02'],
+        'lean_targets': ['Cqos.Props.C02', 'Cqos.Facts.GluePrioV2', 'Cqos.Facts.GluePrioV1'],
+        'facts': True,
         'theorems': ['Cqos.C02.step_hinv', 'Cqos.C02.run_hinv', 'Cqos.C02.c02_fifo', 'Cqos.C02.c02_v2_no_drop',
-                     'Cqos.C02.c02_subsequence', 'Cqos.C02.c02_tag', 'Cqos.C02.c02_simple'],
+                     'Cqos.C02.c02_subsequence', 'Cqos.C02.c02_tag', 'Cqos.C02.c02_simple', 'Cqos.Facts.gluePrioV2', 'Cqos.Facts.gluePrioV1'],
         'runs': [{'cmd': 'stepper', 'args': ['-family', 'mixed']}, {'cmd': 'stepper', 'args': ['-family', 'terminate']},
                  {'cmd': 'stepper', 'args': ['-family', 'dynamic']},
                  {'cmd': 'blackbox', 'args': ['-scenario', 'prio2,prio1']}],
@@ -300,11 +307,12 @@ PROPS = {
         'assumptions': ['H and totals < 2^63 (the unsigned difference after-before does not wrap onto the dividend)'],
     },
     'C07': {
-        'lean_targets': ['Cqos.Props.C07', 'Cqos.Props.C07p'],
+        'lean_targets': ['Cqos.Props.C07', 'Cqos.Props.C07p', 'Cqos.Facts.GluePrioV2', 'Cqos.Facts.GluePrioV1'],
+        'facts': True,
         'theorems': ['Cqos.C07.tinv_step', 'Cqos.C07.tinv_run', 'Cqos.C07.c07_v2_only_then', 'Cqos.C07.c07_v1_graceful_only_then',
                      'Cqos.C07.stopped_false_v2', 'Cqos.C07.c07_no_error_calc', 'Cqos.C07.c07_no_error_recalc',
                      'Cqos.C15.c15_drain_progress', 'Cqos.C07.c07_prompt_step', 'Cqos.C07.c07_prompt',
-                     'Cqos.C07.c07_prompt_reachable', 'Cqos.C07.c07_prompt_unique', 'Cqos.C07.v2_static_run'],
+                     'Cqos.C07.c07_prompt_reachable', 'Cqos.C07.c07_prompt_unique', 'Cqos.C07.v2_static_run', 'Cqos.Facts.gluePrioV2', 'Cqos.Facts.gluePrioV1'],
         'runs': [{'cmd': 'stepper', 'args': ['-family', 'terminate']}, {'cmd': 'stepper', 'args': ['-family', 'mixed']},
                  {'cmd': 'stepper', 'args': ['-family', 'dynamic']},
                  {'cmd': 'blackbox', 'args': ['-scenario', 'prio2,prio1,simple1']}],
@@ -325,11 +333,11 @@ PROPS = {
         'assumptions': ['priority keys of the Inputs map are distinct (Go map)'],
     },
     'C17': {
-        'lean_targets': ['Cqos.Props.C17', 'Cqos.Facts.C17'],
+        'lean_targets': ['Cqos.Props.C17', 'Cqos.Facts.C17', 'Cqos.Facts.GluePrioV1'],
         'facts': True,
         'theorems': ['Cqos.C17.c17_remove', 'Cqos.C17.c17_remove_unreg', 'Cqos.C17.c17_unregistered_not_read', 'Cqos.C17.c17_add',
                      'Cqos.C17.c17_actual_survives', 'Cqos.C01.c01_v1', 'Cqos.C15.c15_args_v1', 'Cqos.C07.c07_v1_graceful_only_then',
-                     'Cqos.Facts.c17_commands_unbuffered'],
+                     'Cqos.Facts.c17_commands_unbuffered', 'Cqos.Facts.gluePrioV1'],
         'runs': [{'cmd': 'stepper', 'args': ['-family', 'dynamic']},
                  {'cmd': 'blackbox', 'args': ['-scenario', 'dynamic']}],
         'monitor_prefix': ['C17', 'C02', 'C01'],
@@ -345,10 +353,10 @@ PROPS = {
         'assumptions': [],
     },
     'C16': {
-        'lean_targets': ['Cqos.Props.C16', 'Cqos.Facts.C16'],
+        'lean_targets': ['Cqos.Props.C16', 'Cqos.Facts.C16', 'Cqos.Facts.GluePrioV1', 'Cqos.Facts.GlueJoin'],
         'facts': True,
         'theorems': ['Cqos.C16.c16_stop_step', 'Cqos.C16.c16_exit_bound', 'Cqos.C16.c16_quiet', 'Cqos.C16.c16_unfixed_cycle',
-                     'Cqos.C16.c16_join_stop', 'Cqos.Facts.c16_selects_offer_stop', 'Cqos.C08.c08_v1_frozen', 'Cqos.C02.c02_subsequence', 'Cqos.C03.c03_prefix'],
+                     'Cqos.C16.c16_join_stop', 'Cqos.Facts.c16_selects_offer_stop', 'Cqos.C08.c08_v1_frozen', 'Cqos.C02.c02_subsequence', 'Cqos.C03.c03_prefix', 'Cqos.Facts.gluePrioV1', 'Cqos.Facts.glueJoin'],
         'runs': [{'cmd': 'stepper', 'args': ['-family', 'stops']}, {'cmd': 'jstepper', 'args': ['-family', 'mixed']},
                  {'cmd': 'blackbox', 'args': ['-scenario', 'prio1,simple1,join']}],
         'monitor_prefix': ['C16'],
@@ -388,10 +396,11 @@ PROPS = {
         'assumptions': ['saturation as a property of the action list (pollEmpty / pollClosed never occur)'],
     },
     'C06': {
-        'lean_targets': ['Cqos.Props.C06', 'Cqos.Props.C16'],
+        'lean_targets': ['Cqos.Props.C06', 'Cqos.Props.C16', 'Cqos.Facts.GluePrioV2'],
+        'facts': True,
         'theorems': ['Cqos.C06.c06_calc_idle', 'Cqos.C06.calc_wait_busy', 'Cqos.C06.w_step', 'Cqos.C06.c06_never_waits_idle',
                      'Cqos.C06.c06_head_served', 'Cqos.C06.c06_recalc_alone', 'Cqos.C06.c06_v1_zero_share_starves',
-                     'Cqos.C15.c15_drain_progress', 'Cqos.C16.c16_exit_bound'],
+                     'Cqos.C15.c15_drain_progress', 'Cqos.C16.c16_exit_bound', 'Cqos.Facts.gluePrioV2'],
         'runs': [{'cmd': 'stepper', 'args': ['-family', 'single']}, {'cmd': 'stepper', 'args': ['-family', 'mixed']},
                  {'cmd': 'stepper', 'args': ['-family', 'terminate']},
                  {'cmd': 'blackbox', 'args': ['-scenario', 'alone']}],
